@@ -4,7 +4,7 @@ CHECK_DEADLOCK FALSE
 CONSTANTS
  HonorsHost = FALSE
  SchemeBound = TRUE
- FoldCase = FALSE
+ FoldCase = TRUE
  StripOnRedirect = TRUE
  MaxFaults = 4
  Confs <- SimConfs
